@@ -684,11 +684,70 @@ fn local_order(rep: &mut Report, m: Method, mode: usize) {
     }
 }
 
+/// the local-order ladder on a linear homogeneous non-autonomous problem whose state is measured in units of 2^k:
+/// the scaled errors must follow the same ladder (the change of unit is exact in binary arithmetic)
+fn local_order_scaled(rep: &mut Report, m: Method) {
+    let (p, _, _) = orders(m);
+    let pr = warp(&base(Base::Decay(-1.3)), Warp::Sin);
+    for k in [0i32, -600, 600, -300, 300] {
+        let sc = 2f64.powi(k);
+        let x0 = 0.4;
+        let y0: Vec<f64> = pr.exact(0.0, &pr.y0, x0).unwrap().iter().map(|v| v * sc).collect();
+        let mut errs = vec![];
+        for e in 1..=8 {
+            let h = 0.5f64.powi(e);
+            let mut c = Cfg::new(m, x0, x0 + h, &y0);
+            c.first_step = Some(h);
+            c.user_jac = true;
+            if m == Method::RADAU {
+                c.rtol = Tol::S(1.0);
+                c.atol = Tol::S(sc);
+                c.newton_tol = Some(1e-13);
+            } else {
+                c.rtol = Tol::S(0.0);
+                c.atol = Tol::S(1e30 * sc);
+            }
+            let r = run_lowlevel(&pr, &c, &[(1, Ans::Interrupt)], &[], None, false);
+            rep.evaluations += 1;
+            rep.transitions += r.st.n_ode;
+            if r.recs.len() < 2 || (r.recs[1].x - (x0 + h)).abs() > 1e-15 {
+                errs.push(f64::NAN);
+                continue;
+            }
+            let ex = pr.exact(x0, &y0, x0 + h).unwrap();
+            errs.push(r.recs[1].y.iter().zip(&ex).fold(0.0f64, |a, (u, v)| a.max(((u - v) / sc).abs())));
+        }
+        let mut observed = vec![];
+        for i in 0..errs.len() - 1 {
+            if errs[i].is_finite() && errs[i + 1].is_finite() && errs[i + 1] > 1e-14 && errs[i] > 1e-14 {
+                observed.push((errs[i] / errs[i + 1]).log2());
+            }
+        }
+        rep.validated += 1;
+        let key = format!("localorder-scaled:{}:{}", mname(m), k);
+        let tail: Vec<f64> = observed.iter().rev().take(3).copied().collect();
+        rep.tags.entry("local-order-ladder-scaled".into()).and_modify(|c| *c += 1).or_insert(1);
+        let best = tail.iter().fold(f64::NEG_INFINITY, |a, b| a.max(*b));
+        if tail.len() < 2 || best < (p + 1) as f64 - 0.4 {
+            rep.violations.push(
+                Violation::new(&key, "local-order", format!("{} on {} in units of 2^{}: observed local order {:?} (scaled errors {:?}), expected about {}", mname(m), pr.name, k, observed, errs, p + 1), json!({"key": key}))
+                    .with("method", mname(m))
+                    .with("scale", k),
+            );
+        }
+    }
+}
+
 /// (5b) accepted-step count as a function of the tolerance: exponent ~ 1/q and no faster
 fn step_count_law(rep: &mut Report, m: Method, q: f64) {
     // (problem, span, scale of the initial state, atol/rtol): the third one is a tiny solution under
     // pure relative control — the law must not depend on the magnitude of the solution
     let mut probs = vec![(base(Base::Harmonic(1.0)), 40.0, 1.0, 1.0), (warp(&base(Base::Logistic(0.7)), Warp::Sin), 12.0, 1.0, 1.0), (base(Base::Decay(-0.3)), 30.0, 1e-12, 0.0)];
+    // the same oscillator in a time unit 2^40 times smaller / larger (an exact change of variable): the law must
+    // not depend on the unit of time either
+    let c40 = 2f64.powi(40);
+    probs.push((crate::problems::timescale(&base(Base::Harmonic(1.0)), 1.0 / c40), 40.0 * c40, 1.0, 1.0));
+    probs.push((crate::problems::timescale(&base(Base::Harmonic(1.0)), c40), 40.0 / c40, 1.0, 1.0));
     if is_thorough() {
         probs.push((base(Base::Decay(-0.3)), 30.0, 1e12, 0.0));
         probs.push((base(Base::Lin3), 12.0, 1.0, 1.0));
@@ -776,6 +835,7 @@ pub fn run_check(replay: Option<Value>) -> i32 {
         local_order(&mut rep, m, 0);
         local_order(&mut rep, m, 1);
         local_order(&mut rep, m, 2);
+        local_order_scaled(&mut rep, m);
     }
     step_count_law(&mut rep, Method::RK23, 3.0);
     step_count_law(&mut rep, Method::DOPRI5, 5.0);
